@@ -205,6 +205,63 @@ End Pipeline.
 
 Arguments mkHid {C}. Arguments h_alloc {C}. Arguments h_memo {C}. Arguments h_caches {C}.
 
+(* ---- go-corelib caches.LoadingCache over hashicorp/golang-lru ------------------------------------ *)
+(* Entries most recently used first; capacity None = unbounded (NewLoadingCache(0)), Some n = at
+   most n entries, the least recently used one is evicted.  Get (loadingCache.go:49-59): a hit
+   refreshes the entry and returns it; a miss calls the loader, stores and returns its value; a
+   loader error is returned and nothing is stored. *)
+Record lcache (K V : Type) := mkLC { lc_cap : option nat; lc_entries : list (K * V) }.
+Arguments mkLC {K V}. Arguments lc_cap {K V}. Arguments lc_entries {K V}.
+
+Section LCache.
+  Variable K V : Type.
+  Variable keqb : K -> K -> bool.
+
+  Fixpoint lc_find (k : K) (l : list (K * V)) : option (V * list (K * V)) :=
+    match l with
+    | [] => None
+    | (k', v) :: r =>
+        if keqb k k' then Some (v, r)
+        else match lc_find k r with
+             | Some (x, r') => Some (x, (k', v) :: r')
+             | None => None
+             end
+    end.
+
+  Definition lc_trim (cap : option nat) (l : list (K * V)) : list (K * V) :=
+    match cap with None => l | Some n => firstn n l end.
+
+  Definition lc_get (load : K -> option V) (k : K) (c : lcache K V) : option V * lcache K V :=
+    match lc_find k (lc_entries c) with
+    | Some (v, rest) => (Some v, mkLC (lc_cap c) ((k, v) :: rest))
+    | None =>
+        match load k with
+        | Some v => (Some v, mkLC (lc_cap c) (lc_trim (lc_cap c) ((k, v) :: lc_entries c)))
+        | None => (None, c)
+        end
+    end.
+End LCache.
+
+(* idr/query.go:26-47 loadXPathExpr: dynamic xpaths (flag DisableXPathCache) bypass the cache *)
+Definition load_xpath_expr {E} (compile : bytes -> option E) (dynamic : bool) (text : bytes)
+           (c : lcache bytes E) : option E * lcache bytes E :=
+  if dynamic then (compile text, c) else lc_get bytes E bytes_eqb compile text c.
+
+(* customfuncs/javascript.go:46-56 getProgram, :58-66 getNodeJSON (off = disableCaching).  The
+   node-JSON loader closes over the node: the cached value is the JSON of whatever node carried
+   the ID when the entry was made. *)
+Definition get_program {P} (compile : bytes -> option P) (off : bool) (js : bytes)
+           (c : lcache bytes P) : option P * lcache bytes P :=
+  if off then (compile js, c) else lc_get bytes P bytes_eqb compile js c.
+
+Definition get_node_json (off : bool) (id : N) (json_of_node : bytes)
+           (c : lcache N bytes) : bytes * lcache N bytes :=
+  if off then (json_of_node, c)
+  else match lc_get N bytes N.eqb (fun _ => Some json_of_node) id c with
+       | (Some j, c') => (j, c')
+       | (None, c') => (json_of_node, c')    (* unreachable: the loader never fails *)
+       end.
+
 (* ---- checksum canon: idr/marshal2.go ----------------------------------------------------------- *)
 (* J2NodeToInterface(n, true) as a value tree; json.Marshal of it is an injective encoding that
    stays a Section variable (string escaping and float printing are not modelled).  Go builds
@@ -270,31 +327,29 @@ Fixpoint obj_put (name : bytes) (v : jv) (arr : list bytes) (o : list (bytes * j
 
 Definition attributes_key : bytes := [x23; x61; x74; x74; x72; x69; x62; x75; x74; x65; x73]. (* "#attributes" *)
 
+(* one child in the object case (marshal2.go:163-192): v = the child's own conversion *)
+Definition obj_step (v : jv) (acc : list (bytes * jv) * list (bytes * jv) * list bytes) (k : tree)
+  : list (bytes * jv) * list (bytes * jv) * list bytes :=
+  let '(obj, attrs, arr) := acc in
+  if is_elem k then let '(obj', arr') := obj_put (j2_name k) v arr obj in (obj', attrs, arr')
+  else if is_attr k then
+    (obj, filter (fun kv => negb (bytes_eqb (fst kv) (j2_name k))) attrs ++ [(j2_name k, v)], arr)
+  else acc.
+
+Definition obj_finish (acc : list (bytes * jv) * list (bytes * jv) * list bytes) : jv :=
+  let '(obj, attrs, _) := acc in
+  match attrs with
+  | [] => JObj obj
+  | _ => JObj (filter (fun kv => negb (bytes_eqb (fst kv) attributes_key)) obj
+               ++ [(attributes_key, JObj attrs)])
+  end.
+
 Fixpoint j2 (t : tree) : jv :=
   let 'T ty d f ks := t in
   if is_child_text t then child_data t
   else if is_child_array t then
-    JArr ((fix go (l : list tree) : list jv :=
-             match l with
-             | [] => []
-             | k :: r => if is_elem k then j2 k :: go r else go r
-             end) ks)
-  else
-    let '(obj, attrs, _) :=
-      (fix go (l : list tree) (acc : list (bytes * jv) * list (bytes * jv) * list bytes) :=
-         match l with
-         | [] => acc
-         | k :: r =>
-             let '(obj, attrs, arr) := acc in
-             if is_elem k then let '(obj', arr') := obj_put (j2_name k) (j2 k) arr obj in go r (obj', attrs, arr')
-             else if is_attr k then go r (obj, filter (fun kv => negb (bytes_eqb (fst kv) (j2_name k))) attrs ++ [(j2_name k, j2 k)], arr)
-             else go r acc
-         end) ks ([], [], []) in
-    match attrs with
-    | [] => JObj obj
-    | _ => JObj (filter (fun kv => negb (bytes_eqb (fst kv) (attributes_key))) obj
-                 ++ [(attributes_key, JObj attrs)])   (* "#attributes" *)
-    end.
+    JArr (flat_map (fun k => if is_elem k then [j2 k] else []) ks)
+  else obj_finish (fold_left (fun acc k => obj_step (j2 k) acc k) ks ([], [], [])).
 
 (* ---- correspondence cases ---------------------------------------------------------------------------- *)
 (* Results are interned by the harness (0 = ErrTransformFailed, k > 0 = the k-th distinct
